@@ -17,4 +17,14 @@ CHECKS = {
              'of length 40 on 6 units/10 streams, so the implementation is shown to follow the checked design on everything explored.',
         note='Trusted: TLC, the projection (unit.ins/outs, stream.sink/source), the intended semantics written in Flowsheet.tla. '
              'Exhaustive for the model; sampled (seeded) for argument tuples at each dumped state in the quick tier.'),
+    'C09': dict(
+        engine='Sparse', category='model_checking',
+        technique='TLA+ spec of the dense (NumPy) semantics (Sparse.tla) model-checked by TLC; operations executed on real SparseVector/SparseLogicalVector/SparseArray objects at TLC-dumped states, along TLC witness paths and along random 30-step histories; TLC validates every step and the representation clause',
+        text='TLC enumerates every sequence of in-place / item-assignment / clear / copy_like / mix_from operations on size-2 objects over a 4-value '
+             'alphabet (complete graph) and checks shape stability and read-only freezing of the dense semantics; every state TLC dumps is then '
+             'loaded into real sparse objects and random mutating and pure operations (operators x operand kinds x index kinds x reductions) are '
+             'judged by TLC against the dense semantics, the rejection rules and the stored-entries-are-exactly-the-non-zeros clause; random '
+             'histories of 30 operations on objects up to 3x6 with cancelling/fractional/large values are validated the same way.',
+        note='Trusted: TLC; the NumPy transcription in Sparse.tla (cross-checked against NumPy itself on every step: a disagreement aborts the check); '
+             'dyadic values make float arithmetic exact. Out of contract: division by zero, column operands (m,1), 2-d single-row operands on 1-d targets.'),
 }
